@@ -1,7 +1,80 @@
-import GoUtils.Model.Unzip
+/-
+C03 — unzip resource limits hold (zip bombs, nested bombs, lying headers).
+`Generated.Zip.limits`: comparison operators and the copy/check order of unzip, unzipZippedFile,
+newZipReader, unzipNestedZipFiles. `Model.Unzip`: accounting model. Lemmas: Proofs/Unzip.lean.
+-/
+import GoUtils.Proofs.Unzip
 import GoUtils.Generated.Zip
 import GoUtils.Verdict
+
 namespace GoUtils.Props.C03
 open GoUtils GoUtils.Unzip
+
+def F : LimitFacts := Generated.Zip.limits
+
 theorem C03_facts_extracted : Generated.Zip.ok = true := by decide
+
+theorem C03_facts_canonical : F.canonical := by
+  simp [LimitFacts.canonical, F, Generated.Zip.limits]
+
+/-- SUCCESS ⇒ WITHIN LIMITS, for every archive (any number of entries, any sizes, any directory depth,
+    headers that lie about their stream, archives nested to ANY depth with any fan-out, zip-named
+    non-zips) and every limits configuration with limits applied: the regular files left on disk hold
+    no more than MaxTotalSize bytes, are no more than MaxFileCount, none is larger than MaxFileSize,
+    none is deeper than MaxDepth when that is non-negative, and no single write ever exceeded
+    MaxFileSize. -/
+theorem C03_success_within_limits (lim : Limits) (hap : lim.apply = true) (size : Nat) (a : Arch)
+    (r : Acc) (h : unzip F lim size a = .ok r) :
+    sumSizes r.files ≤ lim.maxTotal ∧ r.files.length ≤ lim.maxCount ∧
+    (∀ f ∈ r.files, f.1 ≤ lim.maxFile) ∧
+    (lim.maxDepth ≥ 0 → ∀ f ∈ r.files, (f.2 : Int) ≤ lim.maxDepth) ∧
+    r.maxWrite ≤ lim.maxFile := by
+  unfold unzip at h
+  split at h
+  · simp at h
+  split at h
+  · simp at h
+  have p := run_post F C03_facts_canonical lim hap a 0 0 (zeroAcc 0) r (fun _ => rfl)
+    ⟨by simp [zeroAcc], by simp [zeroAcc, sumSizes]⟩ h
+  obtain ⟨new, hf, hb, hd, _⟩ := p.grows
+  simp only [zeroAcc, List.nil_append] at hf
+  refine ⟨?_, ?_, by rw [hf]; exact hb, fun hm => by rw [hf]; exact hd hm, ?_⟩
+  · rcases p.checked with ⟨e1, _⟩ | ⟨h1, _⟩
+    · simp only [zeroAcc] at e1; rw [e1]; simp [sumSizes]
+    · rw [p.inv.2]; exact h1
+  · rcases p.checked with ⟨e1, _⟩ | ⟨_, h2⟩
+    · simp only [zeroAcc] at e1; rw [e1]; simp
+    · exact h2
+  · have := p.writes; simpa [zeroAcc] using this
+
+/-- the archive itself is checked before anything is extracted -/
+theorem C03_archive_checked_first (lim : Limits) (hap : lim.apply = true) (size : Nat) (a : Arch)
+    (hbig : size > lim.maxFile) : unzip F lim size a = .error .tooLarge := by
+  have h2 : archiveSizeExceeded F lim size = true := by
+    simp [archiveSizeExceeded, hap, gt, F, Generated.Zip.limits]; omega
+  unfold unzip
+  split
+  · rfl
+  · simp [h2]
+
+/-- REFUSAL KIND: an archive whose headers do not overstate their streams is never refused with
+    anything but the 'too large' kind (the only other error of the model is the short stream of a
+    lying header), whatever the limits. -/
+theorem C03_refused_kind (lim : Limits) (size : Nat) (a : Arch) (e : Err) (hh : Honest a)
+    (h : unzip F lim size a = .error e) : e = .tooLarge := by
+  unfold unzip at h
+  split at h
+  · simp at h; exact h.symm
+  split at h
+  · simp at h; exact h.symm
+  exact run_error_kind F lim a 0 0 _ e hh h
+
+/-- non-vacuity: a nested bomb (an archive holding an archive holding a 5-byte file) under limits
+    that allow it, and the same under a total of 4 bytes -/
+def bomb : Arch := .fileE 0 true 30 30 true (.fileE 1 true 20 20 true (.fileE 0 false 5 5 false .nil .nil) .nil) .nil
+example : (unzip F { apply := true, recursive := true, maxFile := 100, maxTotal := 5, maxCount := 1, maxDepth := 3 } 40 bomb).toOption.map (·.files) = some [(5, 3)] := by
+  decide
+example : (unzip F { apply := true, recursive := true, maxFile := 100, maxTotal := 4, maxCount := 1, maxDepth := 3 } 40 bomb).toOption.map (·.files) = none := by
+  decide
+
 end GoUtils.Props.C03
